@@ -145,7 +145,8 @@ def main(run, tier):
     run.bounded_check('rt.pretty.reuse', 'abandoned and interleaved prints through one printer object, then the fixpoint', m)
     run.trust('parser determinism; C20 for the layout; C03/C04 for "any conforming ES5 parser"')
     run.assume('"any conforming ES5 parser": no second parser exists in the sandbox (stated limit)',
-               'token fusion / line-break safety of the pretty layout is bounded only')
+               'token fusion / line-break safety of the pretty layout: O-sep decides every adjacency of every production against the grammar\'s FIRST / LAST token '
+               'classes, with a fixed set of representative spellings per open class (identifiers, numbers, strings, regexes); other spellings: bounded')
 
 
 def replay(data):
